@@ -34,6 +34,10 @@ pub struct FlowCase {
     pub restart_gap_ns: i128,
     /// Drop every control handle after this many scheduling rounds (an embedder that never asks for checks).
     pub drop_handles_after: Option<u64>,
+    /// see Driver::ctl_on_emission (honoured by run_hostile)
+    pub ctl_on_emission: Vec<(usize, bool)>,
+    /// run_hostile: prefer sending an on-demand request while a reboot_allowed answer is pending
+    pub ctl_at_reboot_question: bool,
 }
 
 impl FlowCase {
@@ -55,6 +59,8 @@ impl FlowCase {
             embedder_rate: 0,
             restart_gap_ns: 0,
             drop_handles_after: None,
+            ctl_on_emission: vec![],
+            ctl_at_reboot_question: false,
         }
     }
     pub fn shape_key(&self) -> u64 {
@@ -815,9 +821,20 @@ pub fn run_hostile(case: &FlowCase, rng: &mut Rng, h: &Hostile) -> CaseRun {
     let w = make_world(case);
     let mut d = Driver::new(&w, &case.setup);
     d.max_steps = case.max_steps;
+    d.ctl_on_emission = case.ctl_on_emission.clone();
+    let mut drop_after = case.drop_handles_after;
+    let mut rounds = 0u64;
     let mut budget = h.ctl_budget;
     let mut lagged = 0;
     let end = loop {
+        rounds += 1;
+        if drop_after.map(|n| rounds > n).unwrap_or(false) {
+            drop_after = None;
+            for hh in 0..d.handles.len() {
+                d.drop_handle(hh);
+            }
+            d.sig.str("x");
+        }
         let gates_now = d.pending_gates();
         if h.lag && lagged < 3 && !gates_now.is_empty() && rng.chance(1, 6) {
             // do not poll this round
@@ -841,6 +858,15 @@ pub fn run_hostile(case: &FlowCase, rng: &mut Rng, h: &Hostile) -> CaseRun {
         }
         if d.count_state(&StateSnap::Idle) >= case.stop_idle {
             break RunEnd::Stopped;
+        }
+        if budget > 0 && case.ctl_at_reboot_question && rng.bool() {
+            // directed: an on-demand request while the policy's answer about the reboot is still on its way
+            let asked = d.pending_gates().iter().any(|g| matches!(d.gate_kind(*g), GateKind::Policy("rebootallowed")));
+            if asked {
+                budget -= 1;
+                d.send_control(0, true);
+                continue;
+            }
         }
         if budget > 0 && h.ctl_den > 0 && rng.chance(h.ctl_num, h.ctl_den) && !d.handles.is_empty() {
             budget -= 1;
